@@ -490,7 +490,17 @@ class C14(MotionMonitor):
                (2, "firmware", mk(at=True, fw=True)), (1, "addregion", mk(at=True, addregion=True)),
                (1.5, "arcs-under-g91", mk(at=True, rel=True, arcs=True, arcs_rel=True))]
 
+    exhaustive_what = ("every event sequence over {retract, recover, print inside/outside, travel inside/outside, disable @-command, "
+                       "enable @-command} with matched cycles up to length 4 (quick) / 6 (thorough), E-only and firmware retraction")
+
     def gen_case(self, rnd, tier, k):
+        if k % 2 == 0:
+            maxlen = 4 if tier == "quick" else 6
+            e = (k // 2) * getattr(self, "nshards", 1) + getattr(self, "shard", 0)
+            case = exhaustive_case(e // 2, maxlen, firmware=bool(e % 2), variant=1, with_at=True)
+            if case is not None:
+                case["exhaustive_of"] = 2 * exhaustive_total(maxlen, True)
+                return case
         name, feats = self.pick_class(rnd)
         settings = self.settings_for(rnd, feats)
         table, params = at_table(rnd)
